@@ -37,6 +37,10 @@ def _arr(case):
 
 def _line(case):
     k = case['kind']
+    if k == 'laplacian':
+        # laplacian_2D(array, alpha) = convolve(array as double, 3x3 weights(alpha), mode='nearest')
+        return (f"c06 kind=convolve dt=f64 mode=0 shape={gen.enc_shape(case['shape'])} "
+                f"data={core.fmt_floats(_arr(case).astype(np.float64))} wshape=3,3 w={core.fmt_floats(_lap_weights(case['alpha']))}")
     dtn = DTN[case['dtype']]
     if k == 'gaussian' and np.dtype(case['dtype']).kind != 'f':
         dtn = 'f64'                                    # _as_floating_point_array: integers are converted to double
@@ -52,6 +56,14 @@ def _line(case):
     if k == 'gaussian':
         return base + f" sigma={core.fmt_floats(case['sigma'])} order={gen.enc_arr(case['order'])}"
     raise ValueError(k)
+
+
+def _lap_weights(alpha):
+    alpha = max(0, min(alpha, 1))
+    vh = (1. - alpha) / (alpha + 1.)
+    dg = alpha / (alpha + 1.)
+    ce = -4. / (alpha + 1.)
+    return [dg, vh, dg, vh, ce, vh, dg, vh, dg]
 
 
 def _wlayout(w, layout):
@@ -93,6 +105,8 @@ def _call(case, Al):
             out = np.full(Al.shape, 77, Al.dtype)
             _convolve.convolve1d(Al, np.array(case['w'], np.float64), out, MODES.index(case['mode']))
             return out
+        if k == 'laplacian':
+            return mh.laplacian_2D(Al, case['alpha'])
         if k == 'gaussian1d':
             return mh.gaussian_filter1d(Al, case['sigma'], case['axis'], case['order'], mode=case['mode'])
         if k == 'gaussian':
@@ -118,7 +132,10 @@ def _judge(case, got, drv):
     if got is None:
         return [dict(kind='property', key=f'{k}:raises', detail=dict(error=case.get('_error', '')))]   # every input of the domain is valid
     A = _arr(case)
-    if got.shape != A.shape or got.dtype != (A.dtype if k != 'gaussian' or A.dtype.kind == 'f' else np.float64):
+    want_dt = A.dtype
+    if k == 'laplacian' or (k == 'gaussian' and A.dtype.kind != 'f'):
+        want_dt = np.dtype(np.float64)
+    if got.shape != A.shape or got.dtype != want_dt:
         return [dict(kind='property', key=f'{k}:shape-dtype', detail=dict(shape=list(got.shape), dtype=str(got.dtype)))]
     g = np.asarray(got, dtype=np.float64).ravel(order='C')
     model = core.floats(drv.get('model', ''))
@@ -146,7 +163,7 @@ def _judge(case, got, drv):
                             detail=dict(pixels=bad[:8].tolist(), got=g.tolist(), model=m.tolist())))
         return out
     spec = core.floats(drv['spec'])
-    lo, hi = _range(case['dtype'])
+    lo, hi = _range(case['dtype'] if k != 'laplacian' else 'float64')
     ok = (spec >= lo) & (spec <= hi)
     case['_skipped'] = int((~ok).sum())
     bad = np.nonzero(ok & (g != spec))[0]
@@ -352,7 +369,11 @@ def cases(rng, tier):
                             w=_weights(rng, nf, dtype), axis=axis, mode=mode,
                             layout=layout if rng.random() < 0.5 else 'C',
                             wlayout=rng.choice(['C', 'C', 'C', 'strided', 'negstride'])))
-        elif r < 0.85:
+        elif r < 0.83:
+            shape = [rng.choice([1, 2, 3, 4, 6]), rng.choice([1, 2, 3, 5])]
+            out.append(dict(kind='laplacian', dtype=dtype, shape=shape, data=_values(rng, int(np.prod(shape)), dtype),
+                            alpha=rng.choice([0, 1, 0.0, 1.0, -2, 3]), mode='nearest', layout=layout))   # dyadic weights
+        elif r < 0.87:
             n1 = rng.randint(2, 9)
             shape = [rng.randint(1, 3), n1]
             out.append(dict(kind='fastwrites', dtype=dtype, shape=shape, data=_values(rng, int(np.prod(shape)), dtype),
